@@ -65,7 +65,8 @@ impl OperationControl for Atom {
         position: usize,
     ) -> Box<dyn Iterator<Item = usize> + 'a> {
         let in_ = &matcher.search;
-        if (position + self.len) > in_.len() {
+        // a precondition can be evaluated at a saturated fixed position
+        if position.saturating_add(self.len) > in_.len() {
             return Box::new(std::iter::empty());
         }
         let mut in_chars = in_.iter().skip(position);
